@@ -645,6 +645,52 @@ def r15(ctx, rep):
               "and true again afterwards", file=f["file"], line=f["l"], fn=f["path"])
 
 
+def set_ops_tables(ctx, rep, rid):
+    """op table and quantifier decision of translate_set_ops_pipeline (shared by C01 and C07)"""
+    import alpha
+    import boolfn
+    syn = ctx.syn
+    f = syn.fn("gen_query::translate_set_ops_pipeline", crate="prqlc")
+    # (a) the SQL operator has the name of the transform
+    ops = None
+    for m_ in matches_of(f["body"]):
+        rows = {}
+        for arm in m_["arms"]:
+            for alt in pat_alts(arm["pat"]):
+                h = pat_head(alt)
+                if isinstance(h, str) and last_seg(h) in ("Union", "Except", "Intersect"):
+                    rows[last_seg(h)] = last_seg(show(arm["body"]))
+        if len(rows) == 3 and all(v in ("Union", "Except", "Intersect") for v in rows.values()):
+            ops = rows
+    rep.check(ops is not None and all(k == v for k, v in ops.items()), "set-op:table", f"each set transform must become the SQL set operator of the same name; found {ops}", file=f["file"], line=f["l"], fn=f["path"])
+    # (b) quantifier: ALL unless the transform is distinct; DISTINCT is spelled out only for dialects that accept the keyword
+    q = None
+    for n in walk(f["body"]):
+        if n.get("k") == "struct" and last_seg(n["p"]) == "SetOperation":
+            q = dict(n["f"]).get("set_quantifier")
+    A = alpha.Inliner(f)
+    ok = q is not None
+    got = {}
+    if q is not None:
+        try:
+            for d in (True, False):
+                for flag in (True, False):
+                    def atom(t, d=d, flag=flag):
+                        t = t.replace(" ", "")
+                        return d if t == "distinct" else flag if t in ("context.dialect.set_ops_distinct()", "ctx.dialect.set_ops_distinct()") else None
+                    got[(d, flag)] = last_seg(show(boolfn.leaf(q, atom, A)))
+            ok = got == {(True, True): "Distinct", (True, False): "None", (False, True): "All", (False, False): "All"}
+        except boolfn.Unknown:
+            ok = False
+    rep.check(ok, "set-op:quantifier", f"`append` / `remove` / `intersect` keep duplicates (ALL) unless the transform is marked distinct; DISTINCT is written only where the dialect accepts the keyword "
+              f"(otherwise the bare operator, which means DISTINCT); found (distinct, dialect flag) -> {got}", file=f["file"], line=f["l"], fn=f["path"])
+
+
+def r16(ctx, rep):
+    rep.rule("C07.R16", "set operations: operator of the same name, and a quantifier the dialect can parse", floor=2)
+    set_ops_tables(ctx, rep, "C07.R16")
+
+
 def run(ctx, rep):
-    for r in (r1, r2, r3, r4, r5, r6, r7, r8, r9, r10, r11, r12, r13, r14, r15):
+    for r in (r1, r2, r3, r4, r5, r6, r7, r8, r9, r10, r11, r12, r13, r14, r15, r16):
         rep.guard(r, ctx)
